@@ -593,15 +593,30 @@ def main(tier, replay):
     common.info("C14: setup %.1fs" % t.s())
     # 1. the recorded witnesses of the known defect classes, on the real code
     pcases, _ = run_drive(drive, ["probe"])
+    qreq = []
     for c in pcases:
         sig, _, what = c["msg"].partition(" ")
         run.evaluations += 1
         gk, gp = go_class(c["D"])
+        if c["kind"] == "Q":
+            # round-trip witness: msg is "<signature> <message>"
+            c["msg"] = what
+            c["_sig"] = sig
+            qreq.append("rt %s %s ; %s" % (c["fmt"], what, gp) if gk == "ok" else "info")
+            continue
         run.count("probe: %s" % ("accepted (defect present)" if gk == "ok" else "rejected"))
         if gk == "panic":
             run.report("panic:" + c["D"][:60], "Deserialize panics", c)
         elif gk == "ok":
             run.report(sig, what, c)
+    qcases = [c for c in pcases if c["kind"] == "Q"]
+    for c, rt in zip(qcases, run_model(model, qreq)):
+        gk, gp = go_class(c["D"])
+        run.count("probe: round trip %s" % ("equal" if rt == "true" else "NOT equal (defect present)"))
+        if gk == "panic":
+            run.report("panic:" + c["D"][:60], "Deserialize panics", c)
+        elif rt != "true":
+            run.report(c["_sig"], JSON_FLOAT_WHAT + " — here: " + c["D"][:160], c)
     # 2. corpus
     corp = load_corpus()
     if corp:
